@@ -1688,3 +1688,604 @@ def r68_first_after_none(ctx):
 
 
 RULES["R68"] = r68_first_after_none
+
+
+# ------------------------------------------------------------------- R69
+def r69_total_conserved(ctx):
+    """Re-expressing a time of day or a duration in other units keeps its
+    length.  Decided symbolically (sa/linear.py: linear normal form over the
+    fields, with x % K = x - K * (x // K)), path by path:
+      * get_hour_minute_second(): 3600*h + 60*m + s of what it returns
+        equals 3600*hour + 60*minute + second of the fields that are set;
+      * get_second_of_day(): what it returns equals that same total;
+      * Duration(standardize=True): seconds + 60*minutes + 3600*hours +
+        86400*days is the same after the carries as before."""
+    rep = ctx.rep
+    rule = "R69.total-conserved"
+    rep.need_anchor(rule, "unit conversions")
+    from ..dtable import explore
+    from ..linear import lin, same, Lin, readable
+    tp = ctx.model.cls("TimePoint")
+    dur = ctx.model.cls("Duration")
+    P_TP = ("C02", "C04", "C18", "C06", "C01")
+
+    def none_env(p, sn, fields):
+        """fields decided to be None on the path count as zero"""
+        env = {}
+        for fld in fields:
+            if p.decisions.get("%s.%s is None" % (sn, fld)) is True:
+                env["%s.%s" % (sn, fld)] = Lin()
+        return env
+
+    def total(sn, env, scales):
+        t = Lin()
+        for fld, k in scales:
+            t = t.add(lin(ast.parse("%s.%s" % (sn, fld), mode="eval").body,
+                          env).scale(k))
+        return t
+    TIME = (("_hour_of_day", 3600), ("_minute_of_hour", 60),
+            ("_second_of_minute", 1))
+    for name in ("get_hour_minute_second", "get_second_of_day"):
+        f = tp.methods.get(name)
+        if f is None:
+            continue
+        rep.anchor(rule, "unit conversions")
+        key = ctx.fkey(f, None, "total")
+        sn = f.self_name
+        try:
+            paths = explore(f.node.body)
+        except AnalysisError as exc:
+            rep.undecided(rule, key, f.loc(), "not tabulated: %s" % exc,
+                          P_TP)
+            continue
+        bad, unsure, n = [], [], 0
+        for p in paths:
+            if p.outcome != "return" or p.value is None:
+                continue
+            env = none_env(p, sn, [x for x, _ in TIME[1:]])
+            want = total(sn, env, TIME)
+            v = p.value
+            if name == "get_hour_minute_second":
+                if not (isinstance(v, ast.Tuple) and len(v.elts) == 3):
+                    unsure.append("returns %s" % U(v)[:50])
+                    continue
+                got = lin(v.elts[0], env).scale(3600).add(
+                    lin(v.elts[1], env).scale(60)).add(lin(v.elts[2], env))
+            else:
+                got = lin(v, env)
+            n += 1
+            if p.skipped:
+                unsure.append("a loop on the path")
+            elif not readable(got):
+                unsure.append("returns %s, which is not plain arithmetic "
+                              "on the fields" % U(v)[:60])
+            elif not same(got, want):
+                bad.append("when %s it returns %s, i.e. a total of %s "
+                           "seconds instead of %s" % (
+                               p.when()[:120] or "always", U(v)[:80],
+                               got.text()[:120], want.text()[:80]))
+        if bad:
+            rep.violation(rule, key, f.loc(),
+                          "TimePoint.%s does not keep the time of day: %s" %
+                          (name, bad[0]), P_TP)
+        elif unsure or not n:
+            rep.undecided(rule, key, f.loc(), "TimePoint.%s: %s" % (
+                name, unsure[0] if unsure else "no return found"), P_TP)
+        else:
+            rep.ok(rule, key, f.loc(),
+                   "on all %d paths what TimePoint.%s returns adds up to "
+                   "3600*hour + 60*minute + second of the fields that are "
+                   "set (symbolic identity)" % (n, name), P_TP)
+    # _tick_over: the time-of-day part of the normaliser moves fractions
+    # down and whole multiples up without changing the instant
+    f = tp.methods.get("_tick_over")
+    if f is not None:
+        rep.anchor(rule, "unit conversions")
+        key = ctx.fkey(f, None, "time-carry-total")
+        sn = f.self_name
+        region = []
+        for st in f.node.body:
+            region.append(st)
+            if isinstance(st, ast.If) and "_hour_of_day is not None" in U(
+                    st.test) and any(
+                        "HOURS_IN_DAY" in U(x) for x in ast.walk(st)):
+                break
+        else:
+            region = []
+        P_T = ("C01", "C06", "C02", "C04", "C20", "C12")
+        try:
+            paths = explore(region) if region else []
+        except AnalysisError:
+            paths = []
+        bad, unsure, n = [], [], 0
+        DAYF = ("_day_of_week", "_day_of_month", "_day_of_year")
+        for p in paths:
+            if p.outcome not in ("fall", "return"):
+                continue
+            # a finer field is set only where the coarser ones are (for
+            # truncated points that is not so: upstream issue #168, the
+            # known finding K3 - those paths raise TypeError)
+            isnone = {fld: p.decisions.get("%s.%s is None" % (sn, fld))
+                      for fld, _k in TIME}
+            if (isnone["_hour_of_day"] is True and (
+                    isnone["_minute_of_hour"] is False or
+                    isnone["_second_of_minute"] is False)) or (
+                        isnone["_minute_of_hour"] is True and
+                        isnone["_second_of_minute"] is False):
+                continue
+            # ... and a point without any day field (a truncated time of
+            # day) has nothing to carry whole days into
+            if all(p.decisions.get("%s.%s is None" % (sn, fld)) is True
+                   for fld in DAYF):
+                continue
+            n += 1
+            env = none_env(p, sn, [x for x, _ in TIME])
+            before = total(sn, env, TIME)
+            after = Lin()
+            for fld, k in TIME:
+                v = p.env.get("@%s.%s" % (sn, fld))
+                if v is None:
+                    v = ast.parse("%s.%s" % (sn, fld), mode="eval").body
+                after = after.add(lin(v, env).scale(k))
+            for fld in DAYF:
+                v = p.env.get("@%s.%s" % (sn, fld))
+                if v is not None:
+                    orig = lin(ast.parse("%s.%s" % (sn, fld),
+                                         mode="eval").body)
+                    after = after.add(lin(v, env).add(orig, -1).scale(86400))
+            if p.skipped:
+                unsure.append("a loop on the path")
+            elif not readable(after) or any(
+                    "setattr(" in t_ for t_ in p.trace):
+                unsure.append("fields are updated through setattr / "
+                              "calls this rule does not read")
+            elif not same(before, after) and any(
+                    re.search(r"\b(?!int\b|float\b|divmod\b)[A-Za-z_]\w*\(",
+                              a_) for a_ in p.decisions):
+                unsure.append("a path is selected by a test this rule does "
+                              "not read (%s)" % [
+                                  a_[:40] for a_ in p.decisions
+                                  if "(" in a_][:1])
+            elif not same(before, after):
+                bad.append("when %s: %s afterwards, %s before" % (
+                    p.when()[:160] or "always", after.text()[:160],
+                    before.text()[:80]))
+        if bad:
+            rep.violation(rule, key, f.loc(),
+                          "TimePoint._tick_over changes the instant while "
+                          "normalising the time of day (seconds + 60*minutes "
+                          "+ 3600*hours + 86400*days carried): %s" % bad[0],
+                          P_T)
+        elif unsure or not n:
+            rep.undecided(rule, key, f.loc(), "_tick_over time part: %s" % (
+                unsure[0] if unsure else "the carry blocks were not found"),
+                P_T)
+        else:
+            rep.ok(rule, key, f.loc(),
+                   "on all %d paths of the time-of-day part of _tick_over "
+                   "seconds + 60*minutes + 3600*hours + 86400*(days carried) "
+                   "is unchanged (symbolic identity)" % n, P_T)
+    # Duration(standardize=True)
+    init = dur.methods.get("__init__")
+    if init is not None:
+        P_D = ("C11", "C10")
+        blk = [n for n in init.node.body if isinstance(n, ast.If) and
+               U(n.test) == "standardize"]
+        key = ctx.fkey(init, None, "standardize-total")
+        rep.anchor(rule, "unit conversions")
+        if not blk:
+            rep.undecided(rule, key, init.loc(), "Duration.__init__ has no "
+                          "`if standardize:` block this rule reads", P_D)
+        else:
+            sn = init.self_name
+            UNITS_ = (("_seconds", 1), ("_minutes", 60), ("_hours", 3600),
+                      ("_days", 86400))
+            try:
+                paths = explore(blk[0].body)
+            except AnalysisError:
+                paths = []
+            bad, unsure, n = [], [], 0
+            for p in paths:
+                if p.outcome not in ("fall", "return"):
+                    continue
+                n += 1
+                env = none_env(p, sn, [x for x, _ in UNITS_])
+                before = total(sn, env, UNITS_)
+                after = Lin()
+                for fld, k in UNITS_:
+                    v = p.env.get("@%s.%s" % (sn, fld))
+                    if v is None:
+                        v = ast.parse("%s.%s" % (sn, fld), mode="eval").body
+                    after = after.add(lin(v, env).scale(k))
+                if p.skipped:
+                    unsure.append("a loop on the path")
+                elif not readable(after) or any(
+                        "setattr(" in t_ for t_ in p.trace):
+                    unsure.append("units are updated through setattr / "
+                                  "calls this rule does not read")
+                elif not same(before, after):
+                    bad.append("when %s the units add up to %s afterwards "
+                               "(before: %s)" % (p.when()[:140] or "always",
+                                                 after.text()[:140],
+                                                 before.text()[:80]))
+            if bad:
+                rep.violation(rule, key, init.loc(blk[0]),
+                              "Duration(standardize=True) changes the length "
+                              "of the duration: %s" % bad[0], P_D)
+            elif unsure or not n:
+                rep.undecided(rule, key, init.loc(blk[0]),
+                              "standardize block: %s" % (
+                                  unsure[0] if unsure else "no path"), P_D)
+            else:
+                rep.ok(rule, key, init.loc(blk[0]),
+                       "on all %d paths of the standardize block seconds + "
+                       "60*minutes + 3600*hours + 86400*days is unchanged "
+                       "(symbolic identity)" % n, P_D)
+
+
+RULES["R69"] = r69_total_conserved
+
+
+# ------------------------------------------------------------------- R70
+def r70_keyed_construction(ctx):
+    """An object stored in a table under a key that is a configuration
+    value (`TABLE[n] = Dumper(n)` under `n not in TABLE`) is built *from*
+    that key: the key appears among the constructor's arguments.
+    Otherwise every entry is the default object, whatever key it is found
+    under."""
+    rep = ctx.rep
+    rule = "R70.keyed-construction"
+    P = ("C07", "C08", "C17")
+    rep.need_anchor(rule, "package functions")
+    n_f = n_sites = 0
+    for f in ctx.model.all_functions():
+        n_f += 1
+        for n in walk_no_nested(f.node):
+            if not (isinstance(n, ast.Assign) and len(n.targets) == 1 and
+                    isinstance(n.targets[0], ast.Subscript) and
+                    isinstance(n.value, ast.Call)):
+                continue
+            k = n.targets[0].slice
+            if isinstance(k, ast.Constant):
+                continue
+            callee = U(n.value.func).split(".")[-1]
+            if not ctx.model.has_cls(callee):
+                continue
+            n_sites += 1
+            args = [U(a) for a in n.value.args] + [
+                U(kw.value) for kw in n.value.keywords]
+            rep.check(U(k) in args, rule, ctx.fkey(f, n, "keyed"), f.loc(n),
+                      "the %s stored under %s is built from that key" % (
+                          callee, U(k)),
+                      "%s stores %s(%s) under the key %s without handing "
+                      "the key to the constructor: the entry for every key "
+                      "is the default object (a dumper for 2 expanded year "
+                      "digits serves points with 1 or 3)" % (
+                          f.qual, callee, ", ".join(args), U(k)), P)
+    rep.anchor(rule, "package functions", n_f)
+    if not n_sites:
+        rep.ok(rule, "package:no-keyed-construction", "-",
+               "no object is constructed into a table under a computed key "
+               "(%d functions)" % n_f, P, nontrivial=False)
+
+
+RULES["R70"] = r70_keyed_construction
+
+
+# ------------------------------------------------------------------- R71
+def r71_week_form(ctx):
+    """The week form of a Duration is 'the week slot is set' - zero weeks
+    included (P0W, the result of P1W // 2) - and its week count is the
+    signed day count divided by the week length:
+      * get_is_in_weeks() answers by `_weeks is not None`, never by the
+        truthiness of the count;
+      * the count the constructor stores is (days + 7*weeks) // 7 of its
+        arguments - nothing in between (an abs()) drops the sign."""
+    rep = ctx.rep
+    rule = "R71.week-form"
+    P = ("C10", "C11")
+    rep.need_anchor(rule, "Duration week form")
+    from ..dtable import explore
+    from ..linear import lin
+    from ..model import clone
+    dur = ctx.model.cls("Duration")
+    f = dur.methods.get("get_is_in_weeks")
+    if f is not None:
+        rep.anchor(rule, "Duration week form")
+        key = ctx.fkey(f, None, "predicate")
+        sn = f.self_name
+
+        class _Boolify(ast.NodeTransformer):
+            def visit_Return(self, node):
+                if node.value is None or isinstance(node.value,
+                                                    ast.Constant):
+                    return node
+                return ast.copy_location(ast.If(
+                    test=node.value,
+                    body=[ast.Return(value=ast.Constant(value=True))],
+                    orelse=[ast.Return(value=ast.Constant(value=False))]),
+                    node)
+        body = [ast.fix_missing_locations(_Boolify().visit(clone(st)))
+                for st in f.node.body]
+        try:
+            paths = explore(body)
+        except AnalysisError:
+            paths = []
+        atom_none = "%s._weeks is None" % sn
+        atom_truth = "%s._weeks" % sn
+        verdict = "ok" if paths else "unknown"
+        for p in paths:
+            if p.outcome != "return" or not isinstance(p.value,
+                                                       ast.Constant):
+                verdict = "unknown"
+                break
+            others = set(p.decisions) - {atom_none}
+            if atom_truth in others:
+                verdict = "truthy"
+                break
+            if others:
+                verdict = "unknown"
+                break
+            if p.decisions.get(atom_none) is None or \
+                    bool(p.value.value) == p.decisions[atom_none]:
+                verdict = "wrong"
+                break
+        if verdict == "unknown":
+            rep.undecided(rule, key, f.loc(), "get_is_in_weeks is not a "
+                          "test of the week slot this rule reads", P)
+        else:
+            rep.check(verdict == "ok", rule, key, f.loc(),
+                      "get_is_in_weeks() is `_weeks is not None`",
+                      "Duration.get_is_in_weeks %s: a week-form duration of "
+                      "zero weeks (P1W // 2, P3W * 0) is then taken for a "
+                      "unit-form one whose unit slots are all None - "
+                      "comparing or adding it raises TypeError" % (
+                          "tests the week count by truthiness"
+                          if verdict == "truthy" else
+                          "does not answer True exactly when the week slot "
+                          "is set"), P)
+    init = dur.methods.get("__init__")
+    if init is not None and {"days", "weeks"} <= set(init.call_params):
+        rep.anchor(rule, "Duration week form")
+        key = ctx.fkey(init, None, "week-count")
+        sn = init.self_name
+        prefix = []
+        for st in init.node.body:
+            if isinstance(st, ast.If) and U(st.test) == "standardize":
+                break
+            prefix.append(st)
+        try:
+            paths = explore(prefix)
+        except AnalysisError:
+            paths = []
+        bad, n = [], 0
+        for p in paths:
+            v = p.env.get("@%s._weeks" % sn)
+            if v is None or (isinstance(v, ast.Constant) and
+                             v.value is None):
+                continue
+            n += 1
+            if not (isinstance(v, ast.BinOp) and isinstance(
+                    v.op, ast.FloorDiv)):
+                bad.append(U(v)[:60])
+                continue
+            num = lin(v.left)
+            den = lin(v.right).const()
+            if den != 7 or set(num) - {"days", "weeks", 1}:
+                bad.append(U(v)[:60])
+        if not n:
+            rep.undecided(rule, key, init.loc(), "no path of the "
+                          "constructor stores a week count", P)
+        else:
+            rep.check(not bad, rule, key, init.loc(),
+                      "the stored week count is the signed day count of the "
+                      "arguments divided by the week length (%d paths)" % n,
+                      "Duration.__init__ stores the week count %s: not the "
+                      "plain quotient of the signed day count by "
+                      "DAYS_IN_WEEK (the sign of -P2W is lost)" % bad[:2], P)
+
+
+RULES["R71"] = r71_week_form
+
+
+# ------------------------------------------------------------------- R72
+YEAR_HELPERS = ("iter_months_days", "get_days_in_year", "get_is_leap_year",
+                "get_weeks_in_year", "get_days_in_year_range")
+
+
+def r72_loop_year_argument(ctx):
+    """A loop that steps a year counter asks the calendar helpers about
+    *that* year on every round: inside a loop that changes a year (a local
+    counter or the `_year` field), the year argument of iter_months_days /
+    get_days_in_year / get_is_leap_year / get_weeks_in_year depends on what
+    the loop changes.  A year expression that is the same on every round
+    (`self._year - 1` while `start_year` counts down) walks one year's
+    months again and again."""
+    rep = ctx.rep
+    rule = "R72.loop-year-argument"
+    P = ("C01", "C18", "C06", "C05", "C04", "C12")
+    rep.need_anchor(rule, "functions of data.py")
+    n_f = n_sites = 0
+    for f in ctx.model.all_functions():
+        if f.module.name != "data":
+            continue
+        n_f += 1
+        # what holds a year here: whatever is handed to a calendar helper
+        # as its year, or copied to / from a `_year` field
+        year_names = set()
+        for n in walk_no_nested(f.node):
+            if isinstance(n, ast.Call) and U(n.func).lstrip(
+                    "_") in YEAR_HELPERS and n.args and isinstance(
+                        n.args[0], ast.Name):
+                year_names.add(n.args[0].id)
+            if isinstance(n, ast.Assign) and len(n.targets) == 1:
+                t, v = n.targets[0], n.value
+                if isinstance(t, ast.Name) and isinstance(
+                        v, ast.Attribute) and v.attr == "_year":
+                    year_names.add(t.id)
+                if isinstance(v, ast.Name) and isinstance(
+                        t, ast.Attribute) and t.attr == "_year":
+                    year_names.add(v.id)
+        for lp in walk_no_nested(f.node):
+            if not isinstance(lp, (ast.While, ast.For)):
+                continue
+            changed = set()
+            for n in ast.walk(lp):
+                if isinstance(n, ast.AugAssign):
+                    changed.add(U(n.target))
+                elif isinstance(n, ast.Assign):
+                    for t in n.targets:
+                        for x in (t.elts if isinstance(t, ast.Tuple)
+                                  else [t]):
+                            changed.add(U(x))
+            if isinstance(lp, ast.For):
+                changed |= {U(x) for x in ast.walk(lp.target)
+                            if isinstance(x, (ast.Name, ast.Attribute))}
+            years = {c for c in changed if c in year_names or
+                     c.split(".")[-1] == "_year"}
+            if not years:
+                continue
+            # calls evaluated on every round (a `for` loop's own iterable
+            # is evaluated once, before the loop)
+            scope = list(lp.body) + ([lp.test] if isinstance(
+                lp, ast.While) else [])
+            for c in [x for part in scope for x in ast.walk(part)]:
+                if not (isinstance(c, ast.Call) and U(c.func).lstrip(
+                        "_") in YEAR_HELPERS and c.args):
+                    continue
+                yarg = c.args[0]
+                n_sites += 1
+                names = {U(x) for x in ast.walk(yarg)
+                         if isinstance(x, (ast.Name, ast.Attribute))}
+                rep.check(
+                    bool(names & changed), rule, ctx.fkey(f, c, "fresh-year"),
+                    f.loc(c),
+                    "`%s` follows the year the loop steps" % U(c)[:50],
+                    "%s calls %s inside a loop that steps %s, but the year "
+                    "it asks about (%s) is the same on every round: the "
+                    "months of one year are walked again for each further "
+                    "year (wrong as soon as the years differ in length)" % (
+                        f.qual, U(c.func), sorted(years), U(yarg)), P)
+    rep.anchor(rule, "functions of data.py", n_f)
+    if not n_sites:
+        rep.ok(rule, "data.py:no-year-loops", "-", "no loop steps a year "
+               "and calls a calendar helper (%d functions)" % n_f, P,
+               nontrivial=False)
+
+
+RULES["R72"] = r72_loop_year_argument
+
+
+# ------------------------------------------------------------------- R73
+def r73_first_success(ctx):
+    """A loop that tries alternatives in order - `for fmt in FORMATS: try:
+    result = parse(text, fmt) ... except ValueError: pass` - stops at the
+    first that succeeds (break / return at the end of the try body or its
+    else clause).  Without it every later alternative is tried as well and
+    the loop variable ends as the *last* one, whatever matched."""
+    rep = ctx.rep
+    rule = "R73.first-success"
+    P = ("C19", "C17")
+    rep.need_anchor(rule, "package functions")
+    n_f = n_sites = 0
+    for f in ctx.model.all_functions():
+        n_f += 1
+        for lp in walk_no_nested(f.node):
+            if not (isinstance(lp, ast.For) and len(lp.body) == 1 and
+                    isinstance(lp.body[0], ast.Try)):
+                continue
+            t = lp.body[0]
+            swallow = t.handlers and all(
+                all(isinstance(x, (ast.Pass, ast.Continue)) for x in h.body)
+                for h in t.handlers)
+            # (a result variable, not an item converted in place)
+            assigns = [x for x in t.body if isinstance(x, ast.Assign) and
+                       all(isinstance(y, ast.Name) for y in x.targets)]
+            if not swallow or not assigns:
+                continue
+            n_sites += 1
+            tail = (t.orelse or t.body)[-1]
+            leaves = isinstance(tail, (ast.Break, ast.Return))
+            # the loop variable (which alternative matched) is used later
+            lv = {x.id for x in ast.walk(lp.target)
+                  if isinstance(x, ast.Name)}
+            rep.check(leaves, rule, ctx.fkey(f, lp, "stops"), f.loc(lp),
+                      "the search over %s stops at the first alternative "
+                      "that succeeds" % U(lp.iter)[:40],
+                      "%s tries every alternative of %s even after one "
+                      "succeeded (no break/return after the successful "
+                      "attempt): the result and `%s` end as the last "
+                      "alternative that happens to succeed, not the first "
+                      "- input is then printed in another notation than it "
+                      "was written in" % (f.qual, U(lp.iter)[:40],
+                                          ", ".join(sorted(lv))), P)
+    rep.anchor(rule, "package functions", n_f)
+    if not n_sites:
+        rep.ok(rule, "package:no-try-search-loops", "-",
+               "no loop tries alternatives under try/except (%d functions)"
+               % n_f, P, nontrivial=False)
+
+
+RULES["R73"] = r73_first_success
+
+
+# ------------------------------------------------------------------- R74
+def r74_truncation_gate(ctx):
+    """A parser that was not told to allow truncated forms produces no
+    truncated point.  For text matched against the tables that is the
+    tables' business (get_date_info drops the truncated forms); where the
+    parser itself fabricates the information `truncated` - for a date part
+    that is empty - it does so only on a path on which `allow_truncated`
+    holds."""
+    rep = ctx.rep
+    rule = "R74.truncation-gate"
+    P = ("C09", "C07")
+    rep.need_anchor(rule, "TimePointParser.get_info")
+    from ..flow import path_conds
+    f = ctx.try_func("parsers.TimePointParser.get_info")
+    if f is None:
+        raise AnalysisError("TimePointParser.get_info not found")
+    rep.anchor(rule, "TimePointParser.get_info")
+    sites = []
+    for n in walk_no_nested(f.node):
+        fab = False
+        if isinstance(n, ast.Dict):
+            for k, v in zip(n.keys, n.values):
+                if isinstance(k, ast.Constant) and k.value == "truncated" \
+                        and isinstance(v, ast.Constant) and v.value is True:
+                    fab = True
+        elif isinstance(n, ast.Assign) and isinstance(
+                n.targets[0], ast.Subscript) and isinstance(
+                    n.targets[0].slice, ast.Constant) and \
+                n.targets[0].slice.value == "truncated" and isinstance(
+                    n.value, ast.Constant) and n.value.value is True:
+            fab = True
+        if fab:
+            sites.append(n)
+    if not sites:
+        rep.ok(rule, ctx.fkey(f, None, "fabricated"), f.loc(),
+               "get_info fabricates no truncated date information itself",
+               P, nontrivial=False)
+        return
+    for n in sites:
+        gated = False
+        for t, pol in path_conds(n):
+            for c in ([t] if not isinstance(t, ast.BoolOp) else (
+                    t.values if isinstance(t.op, ast.And) == pol else [])):
+                cc, pl = c, pol
+                while isinstance(cc, ast.UnaryOp) and isinstance(
+                        cc.op, ast.Not):
+                    cc, pl = cc.operand, not pl
+                if U(cc).endswith("allow_truncated") and pl:
+                    gated = True
+        rep.check(gated, rule, ctx.fkey(f, n, "fabricated"), f.loc(n),
+                  "truncated date information for an empty date part is made "
+                  "up only where allow_truncated holds",
+                  "TimePointParser.get_info marks the date as truncated (%s) "
+                  "on a path that does not test allow_truncated: a parser "
+                  "that does not allow truncated forms accepts `T06` as a "
+                  "truncated time point (and recurrences built from it "
+                  "raise TypeError)" % U(n)[:50], P)
+
+
+RULES["R74"] = r74_truncation_gate
